@@ -101,6 +101,24 @@ type C18Book struct {
 	Index C18Index `json:"index"`
 }
 
+// a recursive type whose link is omitted when nil, used from outside its own cycle: by value (or below a slice / map)
+// in a field that comes before a plain pointer to it, and the other way round
+type C18R struct {
+	V    int   `json:"v"`
+	Next *C18R `json:"next,omitempty"`
+}
+type C18RU1 struct {
+	Head C18R  `json:"head"`
+	Tail *C18R `json:"tail"`
+}
+type C18RU2 struct {
+	A *C18R           `json:"a"`
+	B C18R            `json:"b"`
+	L []C18R          `json:"l"`
+	M map[string]C18R `json:"m"`
+	Z *C18R           `json:"z"`
+}
+
 func c18Named() []any {
 	one, s := 1, "s"
 	ps := &s
@@ -119,6 +137,8 @@ func c18Named() []any {
 		C18V1{A: 1}, C18V1{A: 1, B: &one}, C18V2{A: e1, C: []C18E1{}}, C18V2{A: e1, B: &e1, C: []C18E1{e1}},
 		C18Tree{Roots: C18Nodes{}}, C18Tree{Roots: C18Nodes{{Name: "n", Children: C18Nodes{{Name: "m", Children: C18Nodes{}}}}}}, C18Nodes{{Name: "n", Children: C18Nodes{}}},
 		C18Book{Index: C18Index{}}, C18Book{Index: C18Index{"k": {Sub: C18Index{"j": {Sub: C18Index{}}}}}},
+		C18RU1{}, C18RU1{Head: C18R{V: 1, Next: &C18R{V: 2}}}, C18RU1{Head: C18R{V: 1}, Tail: &C18R{V: 3, Next: &C18R{V: 4}}},
+		C18RU2{L: []C18R{}, M: map[string]C18R{}}, C18RU2{A: &C18R{Next: &C18R{}}, B: C18R{Next: &C18R{}}, L: []C18R{{Next: &C18R{}}}, M: map[string]C18R{"k": {}}, Z: &C18R{}},
 		C18V3{L: []*C18E1{}, M: map[string]*C18E1{}, N: map[string][]C18E1{}}, C18V3{L: []*C18E1{&e1, nil}, M: map[string]*C18E1{"k": nil, "j": &e1}, N: map[string][]C18E1{"k": {e1}}},
 	}
 }
